@@ -18,7 +18,7 @@ package suites
 //   - handleConnect (001) is a background handler: the harness waits for the UPDATE_GENERAL
 //     notification it sends after storing the nickname;
 //   - within the reaction to ONE line all output comes from one piece of sequential code
-//     (Proofs/ReactProofs.v react_single_source), so per-line output is compared as a sequence.
+//     (Proofs/ReactWire.v react_single_source), so per-line output is compared as a sequence.
 // Projection of a written line (same function in Driver/DrvC05r.v): TIME / FINGER replies keep
 // target and CTCP command only and consecutive equal ones collapse (payload = wall clock / idle
 // time; how many lines Client.Send splits it into depends on its length); the tokens of CAP REQ
@@ -526,7 +526,7 @@ func reactGen(r *rand.Rand) Case {
 	return reactCase("me", "user", Pick(r, "", "", "verif 1.0"), lines)
 }
 
-// reactExample: the ten-line session of Proofs/ReactProofs.v (react_session_example).
+// reactExample: the ten-line session of Proofs/ReactWire.v (react_session_example).
 func reactExample() []string {
 	return []string{
 		":irc.test 001 me :Welcome to the test network\r\n",
